@@ -11,6 +11,8 @@ PROPERTY_PROFILE = {
     "C19": "race",
     "C03": "ctx",
     "C04": "dml",
+    "C05": "cursor",
+    "C06": "cursor",
     "C07": "fail",
     "C13": "txn",
     "C14": "connect",
